@@ -28,7 +28,11 @@ TECHNIQUE = (
     "{CLI, GALLIA_<NAME>, gallia.toml key, built-in default} is pushed through gallia's real create_parser()/parse_typed_args() "
     "with values generated together with their denotation; the effective value is compared with a CLI>env>file>default "
     "reference model, invalid values must be rejected naming their source, every parsed config is dumped to JSON and reloaded, "
-    "and the keys printed by template() are compared with the file keys that are actually honoured; the file generator also writes "
+    "and the keys printed by template() are compared with the file keys that are actually honoured - with the commands of a third-party "
+    "plugin installed next to the in-tree ones (module + dist-info entry point in a scratch directory, found by gallia's own load_commands()) "
+    "whose options use every spelling of the config section gallia supports (top level of gallia.toml, a table of the plugin's own, a table "
+    "nested below another, a per-option section); the template must be a TOML document and a value written into the very line where the "
+    "template lists an option must become the effective value; the plugin's options go through the same precedence cases; the file generator also writes "
     "files that define only the leading parts of an option's key as something that does not lead to the key (scalar, array, array of "
     "tables, table without the next part): such a file holds no value for the option, which must then resolve from the next source; "
     "and every command really stores its configuration: its real entry_point() (run() replaced by a no-op) is run with an artifacts "
@@ -46,6 +50,10 @@ LEVEL_TEXT = (
     "the tree x every intermediate position of the key x all 17 forms on one (quick) / six (thorough) commands declaring the key). "
     "The quick plan also contains every (kind of command-line argument: flag pair / value list / literal choice / enum / single value) x "
     "(source) pair that exists in the tree, preferably on an option whose field metadata is intact at run time. "
+    "Template: every listed or declared file key x up to three (quick) / all (thorough) commands declaring it, with five plugin commands "
+    "(16 options: 7 top level, 5 own table, 4 nested table, 4 of them with a per-option section; table names, the in-tree table nested "
+    "in and the gallia base config - script / scanner / UDS scanner - drawn per seed), each key once through a generated file and once "
+    "through the filled-in template. "
     "Stored runs: every command x two environments of the process x two (quick) / twelve (thorough) configurations whose string options "
     "take texts of every character class from the command line, GALLIA_<NAME> and gallia.toml (in the non-UTF-8 environment texts outside "
     "the locale encoding come from the command line and from gallia.toml, which is UTF-8 by the TOML specification; variables stay ASCII). "
@@ -64,7 +72,10 @@ RULE = (
     "that the file has no value at any key of the command; expected = CLI > env > default, usage error if required); values per field type: ints spelled dec/hex/oct/bin (AutoInt), hex strings in both cases (HexBytes), "
     "range expressions (Ranges, Ranges2D), enum members by name / decimal value / hex value, URIs of the scheme the command accepts, "
     "paths, floats, strings, booleans as --x/--no-x and true/false/1/0, lists on CLI and as TOML arrays; values differ per source so "
-    "the winner is identifiable; non-trivial = the expected winner's value differs from every other value in play; distinct = "
+    "the winner is identifiable; template case = (file key, command, option) and (file key, command, option, filled-in template: the line "
+    "listing the option - found by the option's name when the template lists that name once, whatever table it stands in - replaced by name = value, "
+    "all other value lines commented out, table headers untouched; expected = that value is effective whenever the generated file with the value "
+    "at the real key is); non-trivial = the expected winner's value differs from every other value in play; distinct = "
     "distinct (command, option, sources, draw, variant); stored-run case = (command, environment of the process, draw): the configuration "
     "is accepted in the checking process, the same command line / variables / file are parsed in the child, entry_point() runs there with "
     "--artifacts-base, --db, --no-hooks (hook scripts are stored, not executed) and a no-op run(); expected: exactly one META.json and one "
@@ -95,6 +106,9 @@ ASSUMPTIONS = [
     "'the matching key of gallia.toml' is read as TOML reads a dotted key: section.name has a value iff every part of the section names "
     "a table and the last table holds name; a scalar, array or array of tables at an intermediate position means the file provides "
     "nothing for the option (it is neither a value nor an invalid value of that option)",
+    "commands of third-party plugins belong to 'all commands of the command tree' (the tree is built from the gallia_plugins entry points); a "
+    "plugin's config class may name any config section, the empty one (top level keys of gallia.toml) included - GalliaBaseModel handles it in "
+    "the registry and in attributes_from_config; the plugin installed by the template shard uses plain option types only",
     "stored runs replace the command's run() by a no-op (storing the configuration is done by BaseCommand.entry_point around run()); the "
     "stored META.json is read by gallia's own Rerunner.file() in the environment that wrote it, the database row with sqlite3",
     "the non-UTF-8 environment is LC_ALL=C with PYTHONUTF8=0 and PYTHONCOERCECLOCALE=0 (locale encoding ASCII), the portable stand-in for "
@@ -251,6 +265,18 @@ def required_reach(tier: str) -> dict[str, int]:
         need[f"combo.{bits:04b}"] = 1
     for k in KINDS_REQUIRED:
         need[f"kind.{k}"] = 1
+    # the template with the commands of an installed third-party plugin: every spelling of the config section a plugin may choose
+    # (top level of gallia.toml, a table of its own, a table nested below another, a per-option section) was seen to be honoured at
+    # its real key, listed, and effective when filled in at the place where the template lists it
+    need["template.plugin.commands"] = 5
+    need["template.valid-toml"] = 1
+    for c, k in zip(PLUGIN_SECTION_CLASSES, (5, 4, 4, 4)):
+        need[f"template.plugin.honoured.{c}"] = k
+        need[f"template.plugin.precedence.{c}"] = k
+    need["template.plugin.keys_listed_and_honoured"] = 14
+    need["template.filled-in.effective"] = 25
+    need["template.filled-in.effective.top-level"] = 5
+    need["plugin.combo.0011"] = 10  # a plugin option whose value comes from the file (no CLI, no env)
     need["variant.const-flag"] = 1
     need["variant.bool-negated"] = 1
     need["variant.invalid"] = 10
@@ -1571,7 +1597,138 @@ def stored_child(spec_path: str, out_path: str) -> None:
     os._exit(0)  # no interpreter shutdown: a database worker thread left behind by a run that blew up must not keep the child alive
 
 
+# ------------------------------------------------------------------------------------------------
+# Commands of a third-party plugin.  'All commands of the command tree' are the commands of every installed plugin (the tree is built
+# from the `gallia_plugins` entry points), and a plugin's config classes subclass gallia's base configs and choose their config section
+# freely: gallia supports options at the TOP LEVEL of gallia.toml (config_section=""), tables of the plugin's own, tables nested below
+# an existing one, and a per-option section that differs from the one of the class.  The template shard installs such a plugin the way
+# pip would (a module plus a *.dist-info with entry_points.txt on sys.path, in the shard's scratch directory), so gallia's own
+# load_commands() / create_parser() / template() see it next to the in-tree commands.  Only plain option types are used (the Annotated
+# ones lose their metadata under the installed pydantic - recorded finding, exercised on the in-tree commands).
+PLUGIN_ROOT = "verifbench"
+PLUGIN_MODULE = "verif_c18_plugin"
+PLUGIN_BASES = (
+    ("gallia.command.base", "AsyncScriptConfig", "AsyncScript"),
+    ("gallia.command.base", "ScannerConfig", "Scanner"),
+    ("gallia.command.uds", "UDSScannerConfig", "UDSScanner"),
+)
+PLUGIN_SECTION_CLASSES = ("top-level", "own-table", "nested-table", "field-override")
+
+
+def plugin_source(seed: int) -> tuple[str, dict[str, list[str]]]:
+    """(source of the plugin module, option -> classes of section spelling).  The seed picks the names of the plugin's tables, the
+    in-tree table one of them nests in, and the gallia base config each command builds on; every spelling occurs for every seed."""
+    rng = random.Random(f"C18/plugin/{seed}")
+    own, own2 = rng.sample(["bench", "rack", "lab", "rig", "zz_site", "a_site"], 2)
+    parent = rng.choice(["gallia", "gallia.scanner", "gallia.protocols.uds", "gallia.hooks"])
+    nested = f"{parent}.{rng.choice(['bench', 'plugin_x', 'a0'])}"
+    deep = f"{own2}.{rng.choice(['east', 'west'])}.{rng.choice(['upper', 'lower'])}"
+    bases = [PLUGIN_BASES[0]] * 5
+    for k in rng.sample(range(5), 2):  # two of the five commands build on a scanner config (more in-tree options and tables before them)
+        bases[k] = rng.choice(PLUGIN_BASES[1:])
+    imports = sorted({f"from {m} import {c}, {k}" for m, c, k in bases})
+    sections: dict[str, list[str]] = {}
+
+    def opt(name: str, ann: str, default: str, desc: str, classes: list[str], override: str | None = None) -> str:
+        sections[name] = classes
+        extra = f", config_section={override!r}" if override is not None else ""
+        return f"    {name}: {ann} = Field({default}, description={desc!r}{extra})"
+
+    def command(k: int, cls: str, group: str, section: str, body: list[str]) -> list[str]:
+        _, cfg, cmd = bases[k]
+        return [
+            "", "", f"class {cls}Config({cfg}, cli_group={group!r}, config_section={section!r}):", *body,
+            "", "", f"class {cls}({cmd}):", f"    CONFIG_TYPE = {cls}Config", f"    SHORT_HELP = {('test bench: ' + group)!r}", "",
+            "    async def main(self) -> None:", "        pass",
+        ]
+
+    lines = [
+        '"""Test bench commands (third-party gallia plugin)."""', "", "from collections.abc import Mapping", "from pathlib import Path", "",
+        "from gallia.command import BaseCommand", *imports, "from gallia.command.config import Field", "from gallia.plugins.plugin import CommandTree, Plugin",
+    ]
+    lines += command(0, "BenchInfo", "bench", "", [
+        opt("vb_name", "str", '"unnamed"', "Name of the test bench, stored with every run", ["top-level"]),
+        opt("vb_slot", "int | None", "None", "Slot of the ECU in the test bench", ["top-level"]),
+        opt("vb_strict", "bool", "False", "Refuse to run on a bench that is not calibrated", ["top-level"]),
+        opt("vb_ratio", "float", "1.5", "Divider ratio of the bench supply", ["top-level"]),
+    ])
+    lines += command(1, "BenchRack", "rack", own, [
+        opt("vr_label", "str | None", "None", "Label of the rack", ["own-table"]),
+        opt("vr_ports", "int", "4", "Number of ports of the rack", ["own-table"]),
+        opt("vr_notes", "Path | None", "None", "File with notes about the rack", ["own-table"]),
+    ])
+    lines += command(2, "BenchNested", "nested", nested, [
+        opt("vn_tag", "str", '"t0"', "Tag of the bench inside the shared table", ["nested-table"]),
+        opt("vn_depth", "int | None", "None", "Depth of the bench", ["nested-table"]),
+        opt("vn_deep", "bool", "True", "Option in a table three levels below a table of the plugin", ["nested-table", "field-override"], deep),
+    ])
+    lines += command(3, "BenchMixed", "mixed", own2, [
+        opt("vm_local", "str", '"here"', "Option in the table of its class", ["own-table"]),
+        opt("vm_top", "int", "7", "Option of a class with a table that lives at the top level", ["top-level", "field-override"], ""),
+        opt("vm_shared", "str | None", "None", "Option of a class with a table that lives in a table of gallia", ["nested-table", "field-override"], parent),
+    ])
+    lines += command(4, "BenchTopMixed", "topmixed", "", [
+        opt("vt_top", "str | None", "None", "Top level option without a default", ["top-level"]),
+        opt("vt_flag", "bool", "True", "Top level switch", ["top-level"]),
+        opt("vt_named", "int", "3", "Option of a top level class that lives in a table", ["own-table", "field-override"], own),
+    ])
+    lines += [
+        "", "", "class VerifBenchPlugin(Plugin):", "    @classmethod", "    def name(cls) -> str:", '        return "Test bench"', "",
+        "    @classmethod", "    def commands(cls) -> Mapping[str, CommandTree | type[BaseCommand]]:",
+        f'        return {{"{PLUGIN_ROOT}": CommandTree(description="test bench", subtree={{"info": BenchInfo, "rack": BenchRack, "nested": BenchNested, "mixed": BenchMixed, "topmixed": BenchTopMixed}})}}',
+    ]
+    return "\n".join(lines) + "\n", sections
+
+
+def install_plugin(ctx: Any) -> dict[str, list[str]]:
+    """Installs the plugin for this process (module + dist-info in the shard's scratch directory, appended to sys.path).  Must run
+    before the first load_commands() of the process.  Returns option -> classes of section spelling."""
+    import importlib
+    import sys as _sys
+
+    source, sections = plugin_source(ctx.seed)
+    root = ctx.mkscratch() / "site-plugin"
+    if str(root) not in _sys.path:
+        info = root / f"{PLUGIN_MODULE}-0.0.dist-info"
+        info.mkdir(parents=True, exist_ok=True)
+        (root / f"{PLUGIN_MODULE}.py").write_text(source)
+        (info / "METADATA").write_text(f"Metadata-Version: 2.1\nName: {PLUGIN_MODULE.replace('_', '-')}\nVersion: 0.0\n")
+        (info / "entry_points.txt").write_text(f"[gallia_plugins]\n{PLUGIN_ROOT} = {PLUGIN_MODULE}:VerifBenchPlugin\n")
+        _sys.path.append(str(root))
+        importlib.invalidate_caches()
+    return sections
+
+
+class _PluginCtx:
+    """The shard's context with the reach counters prefixed: what the plugin's options reach must not count for the counters that are
+    required of the in-tree commands.  Cases, samples, traces and violations go through unchanged (same keys as for in-tree options)."""
+
+    def __init__(self, ctx: Any):
+        self._ctx = ctx
+
+    def __getattr__(self, name: str) -> Any:
+        return getattr(self._ctx, name)
+
+    def reach(self, name: str, *a: Any, **kw: Any) -> Any:
+        return self._ctx.reach("plugin." + name, *a, **kw)
+
+
 TEMPLATE_KEY = re.compile(r"^(?:# )?([A-Za-z_][A-Za-z0-9_]*) = ")
+
+
+def template_lines(text: str) -> list[tuple[int, str, str]]:
+    """(line number, table the line stands in, option name) for every line of the template that lists an option."""
+    out: list[tuple[int, str, str]] = []
+    sect = ""
+    for n, line in enumerate(text.splitlines()):
+        m = re.match(r"^\[([^\]]+)\]\s*$", line)
+        if m:
+            sect = m.group(1)
+            continue
+        m = TEMPLATE_KEY.match(line)
+        if m and (not line.startswith("# ") or line.rstrip().endswith("= ...")):
+            out.append((n, sect, m.group(1)))
+    return out
 
 
 def template_keys() -> tuple[list[str], str]:
@@ -1581,26 +1738,47 @@ def template_keys() -> tuple[list[str], str]:
     with contextlib.redirect_stdout(buf):
         template()
     text = buf.getvalue()
-    keys: list[str] = []
-    sect = ""
-    for line in text.splitlines():
-        m = re.match(r"^\[([^\]]+)\]\s*$", line)
-        if m:
-            sect = m.group(1)
-            continue
-        m = TEMPLATE_KEY.match(line)
-        if m and (not line.startswith("# ") or line.rstrip().endswith("= ...")):
-            keys.append(f"{sect}.{m.group(1)}" if sect else m.group(1))
-    return keys, text
+    return [f"{sect}.{attr}" if sect else attr for _, sect, attr in template_lines(text)], text
+
+
+def template_filled_in(text: str, at: int, attr: str, lit: str) -> str:
+    """The template as a user fills it in for ONE option: the line that lists the option becomes `attr = lit`; every other line that
+    sets a value is commented out (so nothing but this option's placement is under test), the table headers stay where they are."""
+    listing = {n for n, _, _ in template_lines(text)}
+    out = []
+    for n, line in enumerate(text.splitlines()):
+        if n == at:
+            out.append(f"{attr} = {lit}")
+        elif n in listing and not line.startswith("#"):
+            out.append("# " + line)
+        else:
+            out.append(line)
+    return "\n".join(out) + "\n"
 
 
 def run_template(ctx: Any) -> None:
-    """template(): listed keys == keys honoured by some command; each listed key is honoured as listed."""
+    """template(): listed keys == keys honoured by some command; each listed key is honoured as listed - for the in-tree commands and
+    for the commands of an installed third-party plugin whose options live at the top level of gallia.toml, in tables of its own, in
+    tables nested below existing ones and in per-option sections; a value written where the template lists an option is effective."""
+    import tomllib
+
+    plugin_sections = install_plugin(ctx)  # before the first load_commands() of this process, like an installed distribution
+    cmds = _commands()  # `gallia --template` prints the template after load_commands(), too
+    plugin_cmds = [i for i, (path, _) in enumerate(cmds) if path[0] == PLUGIN_ROOT]
+    for _ in plugin_cmds:
+        ctx.reach("template.plugin.commands")
     keys, text = template_keys()
     listed = set(keys)
     if len(keys) != len(listed):
         ctx.violation("template/duplicate-key", "the template lists a key twice", {"template": text[:1500]})
-    cmds = _commands()
+    # the template is a TOML document (options without a default are listed as `# name = ...`: given some value here)
+    lines = template_lines(text)
+    unset = {n: a for n, _, a in lines if text.splitlines()[n].startswith("# ")}
+    try:
+        tomllib.loads("\n".join(f'{unset[n]} = "unset"' if n in unset else ln for n, ln in enumerate(text.splitlines())))
+        ctx.reach("template.valid-toml")
+    except tomllib.TOMLDecodeError as e:
+        ctx.violation("template/not-valid-toml", "the generated template is not a TOML document once the listed options are filled in", {"error": str(e)[:300], "template": text[:3000]})
     honoured: dict[str, list[str]] = {}
     not_honoured: dict[str, list[tuple[str, str, Any]]] = {}
     declared_keys: dict[str, list[tuple[int, str]]] = {}
@@ -1628,7 +1806,36 @@ def run_template(ctx: Any) -> None:
         out = h.parse(argv, {}, toml_text, allow_full=False)
         ctx.case(("template", key, h.cmdname, name))
         ok = out.kind == "ok" and S.same(getattr(out.cfg, name, None), vals["file"].expected)
+        if ok and d.file_key == key:
+            filled_in(h, orun, d, key, argv, vals["file"])
         return ok, orun.witness(present, argv, {}, toml_text, vals["file"].expected, out, "template-key")
+
+    def filled_in(h: Harness, orun: OptionRun, d: S.Decl, key: str, argv: list[str], v: S.Val) -> None:
+        """The option takes a value from its real key.  Does it take the same value from the place where the template lists it?  The
+        line is found by the option's name if the template lists that name once (whatever table the line stands in), else by name
+        and table."""
+        at = [n for n, _, a in lines if a == d.name]
+        if len(at) != 1:
+            at = [n for n, s, a in lines if (f"{s}.{a}" if s else a) == key]
+        if len(at) != 1:
+            ctx.reach("template.filled-in.not-listed-once")  # judged as missing / duplicate key
+            return
+        toml_text = template_filled_in(text, at[0], d.name, str(v.toml))
+        out = h.parse(argv, {}, toml_text, allow_full=False)
+        ctx.case(("template-filled-in", key, h.cmdname, d.name))
+        top = "." not in key
+        if out.kind == "ok" and S.same(getattr(out.cfg, d.name, None), v.expected):
+            ctx.reach("template.filled-in.effective")
+            if top:
+                ctx.reach("template.filled-in.effective.top-level")
+            return
+        above = [ln for ln in text.splitlines()[: at[0]] if ln.startswith("[")]
+        wit = orun.witness({"file"}, argv, {}, "\n".join(ln for ln in toml_text.splitlines() if ln and not ln.startswith("#")) + "\n", v.expected, out, "template-key")
+        ctx.violation(
+            f"template/filled-in-line-not-effective/{'top-level' if top else 'table'}",
+            "the option takes a value from its real key, but not from the place where --template lists it",
+            {**wit, "key": key, "template_line": at[0] + 1, "table_header_above_the_line": above[-1] if above else None},
+        )
 
     for key in sorted(listed | set(declared_keys)):
         users = declared_keys.get(key, [])
@@ -1663,6 +1870,30 @@ def run_template(ctx: Any) -> None:
             ctx.reach("template.keys_honoured")
     for key in sorted(set(honoured) - listed):
         ctx.violation("template/missing-key", "a file key that is honoured is not listed by --template", {"key": key, "commands": honoured[key][:5]})
+    # the spellings of the config section a plugin may choose: which of them were seen to be honoured at their real key
+    for key in sorted(honoured):
+        for i, name in declared_keys[key]:
+            if i in plugin_cmds and name in plugin_sections and cmds[i][1].CONFIG_TYPE.__module__ == PLUGIN_MODULE:
+                for c in plugin_sections[name]:
+                    ctx.reach(f"template.plugin.honoured.{c}")
+                if key in listed:
+                    ctx.reach("template.plugin.keys_listed_and_honoured")
+    # ... and the plugin's own options resolve CLI > env > file > default like every other option (all source subsets, invalid values,
+    # files without a value at the key; reach counters under plugin.*)
+    pctx = _PluginCtx(ctx)
+    for i in plugin_cmds:
+        path, cmd = cmds[i]
+        h = Harness(pctx, path, cmd, 0)
+        for d in _options(cmd):
+            if d.owner.__module__ != PLUGIN_MODULE:
+                continue
+            if ctx.out_of_time():
+                ctx.reach("stopped.out_of_time")
+                return
+            OptionRun(h, d, f"{ctx.seed}/{h.cmdname}/{d.name}", 1).run()
+            ctx.reach("template.plugin.options.precedence")
+            for c in plugin_sections.get(d.name, []):
+                ctx.reach(f"template.plugin.precedence.{c}")
     # accidental keys: options without a config section are looked up under the literal table name "None"
     probed = 0
     for i, (path, cmd) in enumerate(cmds):
@@ -1746,6 +1977,8 @@ def replay(ctx: Any, witness: dict[str, Any]) -> None:
     if witness.get("variant") == "template-key":
         run_template(ctx)
         return
+    if str(witness["command"]).split(" ")[0] == PLUGIN_ROOT:
+        install_plugin(ctx)  # a command of the plugin that the template shard installs
     if witness.get("variant") == "stored-run":
         idx = [i for i, (path, _) in enumerate(_commands()) if " ".join(path) == witness["command"]]
         run_stored(ctx, {"mode": "stored", "env": witness["environment"], "part": 0, "parts": 1, "cases": max(STORED_CASES_THOROUGH, int(witness.get("stored_case", 0)) + 1), "indices": idx})
